@@ -963,6 +963,7 @@ async fn manual(w: &mut World, cx: &mut Cx, pol: &Policy, race: Option<(&Race, u
         w.last_effect = ww.last_effect;
         w.dropped_names = ww.dropped_names;
         w.stale_indexed_cols = ww.stale_indexed_cols;
+        w.last_cast = ww.last_cast;
         w.rebased_commits = ww.rebased_commits;
         w.refresh().await?;
     } else {
